@@ -61,6 +61,9 @@ structure Engine (σ : Type) where
   sslRead : σ → Nat → EngProg σ
   sslWrite : σ → Bytes → EngProg σ
   initFinished : σ → Bool
+  /-- `SSL_pending() > 0`: decrypted application data of a record that was only partly read is held
+  inside the engine (no further wire event will announce it) -/
+  pending : σ → Bool := fun _ => false
 
 /-- every way the program can end satisfies `P` -/
 inductive AllLeaves {σ : Type} (P : SslAns → Bytes → σ → Prop) : EngProg σ → Prop where
@@ -385,6 +388,10 @@ def driverQuery (E : Engine σ) (s : St σ ω) (pollOut : Bool) : Bool × St σ 
     (true, { s with g := { s.g with driverSendSuppressed := false } })
   else (pollOut, s)
 
+/-- the return value of `DriverQuery` (since the repair of F8): received data is held already, the driver
+must not wait for the descriptor and must treat this socket as readable -/
+def driverReceived (E : Engine σ) (s : St σ ω) : Bool := E.pending s.e
+
 /-- `DriverPending()`: writable with nothing queued - advance the handshake -/
 def driverPending (C : Cfg) (W : World ω) (E : Engine σ) (s : St σ ω) : Out Unit × St σ ω :=
   if E.initFinished s.e then (.ok (), s)
@@ -505,11 +512,20 @@ def aTask (C : Cfg) (W : World ω) (E : Engine σ) (rxSize : Nat) (x : ASt σ ω
 inductive AEv where
   | enq (buf : Bytes)
   | step (rev : REvents)
+  /-- a step in which this socket is the one `QuerySockets` returns (the first socket whose `DriverQuery`
+  answered "received data is held already", if it did): `DoOneSocketTask(received)` treats it as readable
+  whatever `poll` (called with timeout 0) reported -/
+  | stepFirst (rev : REvents)
   deriving Repr
+
+/-- the revents `DoOneSocketTask(received)` acts on for the socket `QuerySockets` returned -/
+def forcedRev (E : Engine σ) (x : ASt σ ω) (rev : REvents) : REvents :=
+  if x.a.registered ∧ driverReceived E x.s then { rev with rd := true } else rev
 
 def aApply (C : Cfg) (W : World ω) (E : Engine σ) (rxSize : Nat) (x : ASt σ ω) : AEv → ASt σ ω
   | .enq buf => enqueue x buf
   | .step rev => (aTask C W E rxSize (aQuery E x) rev).2
+  | .stepFirst rev => (aTask C W E rxSize (aQuery E x) (forcedRev E (aQuery E x) rev)).2
 
 def aRun (C : Cfg) (W : World ω) (E : Engine σ) (rxSize : Nat) (x : ASt σ ω) (evs : List AEv) : ASt σ ω :=
   evs.foldl (aApply C W E rxSize) x
